@@ -261,6 +261,8 @@ def run(ctx):
     ctx.obligations.append(("oracle: pickle round trip, dump(), verify(), contents, mirrored follow-up, independence (both builds)", not oracle_fail, f"{len(oracle_fail)} failing of {len(cases)}"))
     ctx.obligations.append(("coverage: every node class found by introspection occurs in a pickled manager and is known to the translator",
                             not unknown and not missing_cls, f"unknown={unknown} not exercised={missing_cls}"))
+    ctx.obligations.append(("no case ended by an exception of the library outside the steps whose exceptions are outcomes", not cerrs,
+                            "" if not cerrs else f"{len(cerrs)} cases, first: {cerrs[0][2]}"))
 
     # second stream: managers with NESTED targets (index multiplicities > 1), pickled after a history
     import mgr_common as mc
@@ -315,8 +317,9 @@ def run(ctx):
         bad, r = case_fails(small, ids, b)
         vlib.violation(ctx, {"kind": "oracle", "what": "the restored manager is not an independent, behaviourally identical copy", "build": b,
                              "case": small, "problems": r.get("oracle"), "how_to_replay": "./check C12 --replay <this file>"})
-    elif mism or build_diff or unknown or missing_cls or not proof_ok or not coq_ok:
+    elif mism or build_diff or unknown or missing_cls or cerrs or not proof_ok or not coq_ok:
         what = list(getattr(ctx, "broken", []))
+        rs.describe_errors(cerrs, what)
         if mism:
             what.append(f"reduce correspondence broke on {len(mism)} nodes, first: {json.dumps(mism[0])}")
         if build_diff:
